@@ -16,7 +16,7 @@ import (
 func init() {
 	register(&Pack{ID: "C01", Run: runC01, Meta: core.Meta{
 		Level:       "other",
-		Explanation: "What decides which bytes a lens touches is one address expression and one pair of numbers, all visible in the code. addr-term: every dereference of a pointer converted from unsafe.Pointer in package optics has the normalised address term uintptr(unsafe.Pointer(BASE)) + L.Type.StructField.Offset + L.Type.RootOffs (sum flattened and sorted) with L the method receiver and BASE the container pointer (the *S parameter, or the result of the successful s.(*S) assertion), typed *A for the lens' focus type parameter; the four methods agree (sibling cross-check); Put/Putt perform exactly one store, of parameter a, through that pointer and return the container argument unchanged, Get/Gett store nothing; unsafe-census: every unsafe.Pointer conversion in every loaded package sits in one of those address terms; offs-writers/offs-term: the only writers of hseq.Type.RootOffs / StructField are the composite literals of the unfolding function hseq.New calls with offset 0, where RootOffs is the offset parameter, StructField is cat.Field(i) and the recursion passes offset + cat.Field(i).Offset for the same i; pairing: ForProductN/ForSpectrumN/NewN/FMapN are positionally consistent on type arguments and constant indices. Paper: RootOffs+Offset is the sum of reflect offsets along a chain of value-embedded structs = the compiler's byte offset; a typed store through *A writes sizeof(A) bytes there; A = field type by the guard (C02) => GetPut/PutGet/PutPut and neighbours untouched for every layout. The reflect layout contract and field values are not decided. Thorough tier repeats the rules under GOARCH=386 and arm64.",
+		Explanation: "What decides which bytes a lens touches is one address expression and one pair of numbers, all visible in the code. addr-term: every dereference of a pointer converted from unsafe.Pointer in package optics has the normalised address term uintptr(unsafe.Pointer(BASE)) + L.Type.StructField.Offset + L.Type.RootOffs (sum flattened and sorted) with L the method receiver and BASE the container pointer (the *S parameter, or the result of the successful s.(*S) assertion), typed *A for the lens' focus type parameter; the four methods agree (sibling cross-check); Put/Putt perform exactly one store, of parameter a, through that pointer and return the container argument unchanged, Get/Gett store nothing; unsafe-census: every unsafe.Pointer conversion in every loaded package sits in one of those address terms; offs-writers/offs-term: the only writers of hseq.Type.RootOffs / StructField are the composite literals of the unfolding function hseq.New calls with offset 0, where RootOffs is the offset parameter, StructField is cat.Field(i) and the recursion passes offset + cat.Field(i).Offset for the same i; pairing: ForProductN/ForSpectrumN/NewN/FMapN are positionally consistent on type arguments and constant indices. Paper: RootOffs+Offset is the sum of reflect offsets along a chain of value-embedded structs = the compiler's byte offset; a typed store through *A writes sizeof(A) bytes there; A = field type by the guard (C02) => GetPut/PutGet/PutPut and neighbours untouched for every layout. The reflect layout contract and field values are not decided. Thorough tier repeats the rules under GOARCH=386 and arm64. Selection by names keeps the requested order and never falls back to the declaration order (names-order, shared with C03).",
 		RuleText:    "one obligation per (rule, method / constructor / literal / call site)",
 		Assumptions: []string{"hseq.Type values reaching optics were produced by hseq (clients can forge the public struct; all writers inside the repository are enumerated)", "reflect reports true field offsets"},
 		TrustedBase: []string{"go/types", "go/ssa", "term normaliser T", "reflect's layout data"},
@@ -1028,6 +1028,15 @@ func pairingRules(c *core.Ctx) {
 				ok, why = false, fmt.Sprintf("element %d is looked up by type %v, expected type parameter %s", i, got[int64(i)], tps[i+1])
 			}
 		}
+		if !ok && n >= 1 {
+			// not the literal form: the same statement on the value the function returns (helpers followed, a table of
+			// selector functions applied by a loop unrolled)
+			if pok, pwhy := newNPaths(c, fn, tps, n, forType); pok {
+				ok = true
+			} else if pwhy != "" {
+				why += "; on the returned value: " + pwhy
+			}
+		}
 		c.Check(ok, "pairing", name, fn.Pos(), fmt.Sprintf("%d positions", n), "%s", why)
 	}
 	// ---- hseq.FMapN: i-th result is f_i(ts[i-1])
@@ -1069,6 +1078,84 @@ func pairingRules(c *core.Ctx) {
 		}
 		c.Check(ok, "pairing", name, fn.Pos(), fmt.Sprintf("%d positions", n), "%s", why)
 	}
+}
+
+// newNPaths: NewN[T, A1..An]() returns a fresh n-element listing whose i-th element is ForType[Ai, T](New[T]()).
+func newNPaths(c *core.Ctx, fn *ssa.Function, tps []*types.TypeParam, n int, forType *ssa.Function) (bool, string) {
+	newFn := c.W.Func("hseq", "New")
+	if newFn == nil || forType == nil {
+		return false, "hseq.New / hseq.ForType not found"
+	}
+	an := c.AnalyzeLoopsExcept(fn, forType, newFn)
+	if len(an.Problems) > 0 || len(an.Headers) > 0 {
+		return false, "loops remain or the function could not be modelled"
+	}
+	nRet := 0
+	for _, p := range an.AllPaths() {
+		if p.Exit != ir.ExitReturn {
+			continue
+		}
+		nRet++
+		if len(p.Results) != 1 {
+			return false, "not a single result"
+		}
+		r := p.Results[0]
+		base := r
+		switch {
+		case r.Op == "mkslice":
+			if k, isK := r.Args[0].IntConst(); !isK || k != int64(n) {
+				return false, fmt.Sprintf("the result has length %s, expected %d", short(r.Args[0]), n)
+			}
+		case r.Op == "slice" && r.Args[0].Op == "alloc":
+			if k, _, isArr := freshArrayLen(r); !isArr || k != int64(n) {
+				return false, fmt.Sprintf("the result is not a fresh %d-element listing", n)
+			}
+			base = r.Args[0]
+		default:
+			return false, "the result is not a fresh listing: " + short(r)
+		}
+		// the full listing: New[T]() without names
+		var full *ir.Term
+		for _, st := range p.Events(ir.KCall) {
+			if st.Static != nil && originOf(st.Static) == newFn {
+				if full != nil {
+					return false, "the type is unfolded more than once"
+				}
+				if len(st.InstArgs) != 1 || !types.Identical(st.InstArgs[0], tps[0]) {
+					return false, "hseq.New is not instantiated with the container type parameter"
+				}
+				if len(st.A) != 1 || !(st.A[0].IsNil() || st.A[0].Op == "const") {
+					return false, "hseq.New is given names"
+				}
+				full = st.R
+			}
+		}
+		if full == nil {
+			return false, "the type is not unfolded by hseq.New"
+		}
+		for i := 0; i < n; i++ {
+			el := p.End.MemAt(&ir.Term{Op: "iaddr", Args: []*ir.Term{base, ir.Const(fmt.Sprint(i))}})
+			var call *ir.Step
+			for _, st := range p.Events(ir.KCall) {
+				if st.Static != nil && originOf(st.Static) == forType && el != nil && ir.Same(st.R, el) {
+					call = st
+				}
+			}
+			if call == nil {
+				return false, fmt.Sprintf("element %d is %s, not the result of a ForType lookup", i, short(el))
+			}
+			if len(call.InstArgs) != 2 || !types.Identical(call.InstArgs[0], tps[i+1]) || !types.Identical(call.InstArgs[1], tps[0]) {
+				return false, fmt.Sprintf("element %d is looked up as ForType%v, expected [%s, %s]", i, call.InstArgs, tps[i+1], tps[0])
+			}
+			if len(call.A) != 1 || !ir.Same(call.A[0], full) {
+				return false, fmt.Sprintf("element %d is looked up in %s, not in the full listing", i, short(call.A[0]))
+			}
+		}
+	}
+	if nRet != 1 {
+		return false, fmt.Sprintf("%d returning paths, expected one", nRet)
+	}
+	return true, ""
 }
 
 // returnsInOrder: fn returns exactly the results of call, in order.
